@@ -116,7 +116,9 @@ class Output(Formatter):
         if self._formatter.force_ansi():
             self._format_output = True
         else:
-            self._format_output = self._stream.supports_ansi()
+            self._format_output = (
+                self._stream.supports_ansi() and not self._formatter.disable_ansi()
+            )
 
     @property
     def stream(self):  # type: () -> OutputStream
@@ -134,7 +136,9 @@ class Output(Formatter):
         if formatter.force_ansi():
             self._format_output = True
         else:
-            self._format_output = self._stream.supports_ansi()
+            self._format_output = (
+                self._stream.supports_ansi() and not formatter.disable_ansi()
+            )
 
     @property
     def formatter(self):  # type: () -> Formatter
